@@ -47,6 +47,27 @@ Cases == {[kind |-> k, field |-> c[1], op |-> c[2]] : k \in Kinds, c \in Common}
       \cup {[kind |-> "multi", field |-> c[1], op |-> c[2]] : c \in MultiOnly}
       \cup {[kind |-> "regioninfo", field |-> c[1], op |-> c[2]] : c \in RegionInfoCases}
 
+(* ---- client level: the response decodes (a valid protobuf, a consistent cellblock) but what it says is inconsistent in a *)
+(* way that only its CONSUMER can notice: scanner.Next (row assembly), the hbase:meta lookup (ParseRegionInfo, the region   *)
+(* cache ordered by region.Compare), Increment / CheckAndPut (look into the returned cells / flags).  A healthy cluster     *)
+(* answers the nth request of one public API call with such a response.                                                   *)
+ScanConsumerCases == { "more-partial-flags-than-results/last-real-partial", "more-partial-flags-than-results/last-real-complete",
+                       "fewer-partial-flags-than-results", "result-with-zero-cells-flagged-partial", "only-zero-cell-results",
+                       "no-scanner-id-but-more-in-region", "no-flags-at-all", "results-in-protobuf-AND-cellblock-counts",
+                       "cells-of-two-rows-in-one-result" }
+MetaRowCases == { "row-key-without-any-comma", "row-key-with-one-comma", "row-key-empty", "row-key-of-another-table",
+                  "no-server-column", "server-without-port", "server-empty", "only-the-server-column", "regioninfo-twice",
+                  "zero-cell-row", "more-partial-flags-than-results" }
+ClientCases ==
+       {[api |-> a, target |-> "scan", case |-> c] : a \in {"scan", "scan-partial"}, c \in ScanConsumerCases}
+  \cup {[api |-> a, target |-> "meta", case |-> c] : a \in {"get", "scan", "batch"}, c \in MetaRowCases}
+  \cup {[api |-> "increment", target |-> "increment", case |-> c] : c \in {"value-shorter-than-8-bytes", "no-cells", "no-result", "empty-value"}}
+  \cup {[api |-> "checkandput", target |-> "checkandput", case |-> "no-processed-flag"],
+        [api |-> "get", target |-> "get", case |-> "no-result"], [api |-> "get", target |-> "get", case |-> "no-message"],
+        [api |-> "get", target |-> "get", case |-> "wrong-message-type"], [api |-> "put", target |-> "put", case |-> "wrong-message-type"]}
+(* what the driver observes of the API call and of the client afterwards *)
+ClientOrderly(o) == ~o.panicked /\ o.returned /\ o.usableAfterwards
+
 (* what may be observed after the frame has been handed to the reader:                                           *)
 (*   panicked / spun            never                                                                             *)
 (*   connFailed                 the stream is unusable: the connection is failed in the orderly way of C03       *)
